@@ -23,6 +23,7 @@ EXPLANATION = (
     "E9 contradictory key beliefs: a local dictionary that is read with .get(k) somewhere in a function (a missing key is expected) is not read with [k] elsewhere "
     "in that function unless a membership test, a comprehension guard or a reasoned table row covers the access. "
     "Implicit exceptions in general (None dereference elsewhere, other KeyErrors, recursion limits) are not decided."
+    " Added after seed round 7: E10 add_statement refuses statements and heads that are a Var, Constant, And or Not with a GroundingError (class tests evaluated on the Term hierarchy)."
 )
 TECHNIQUE = "static analysis: import resolution, exception-flow over resolved call graph, handler-coverage tables"
 
